@@ -846,6 +846,40 @@ func eqGen(g *G, tier string) []M {
 			}
 		}
 	}
+	// fixed inputs, there at every seed and drawing nothing from the random stream (round 23): two
+	// nodes that differ in exactly one field of one person who has no other optional field — a URL
+	// without an e-mail address, a telephone number without a URL, … — as a supplier or an originator
+	// and as that person's contact; each pair also as value against absent
+	for _, fld := range []string{"Suppliers", "Originators"} {
+		for _, key := range []string{"n", "e", "u", "p", "o"} {
+			for _, nested := range []bool{false, true} {
+				for _, absent := range []bool{false, true} {
+					mk := func(second bool) M {
+						per := M{"n": "P", "o": false}
+						switch {
+						case key == "o":
+							per["o"] = second
+						case key == "n" && second:
+							per["n"] = "Q"
+						case key != "n" && !second && !absent:
+							per[key] = "v1"
+						case key != "n" && second:
+							per[key] = "v2"
+						}
+						if nested {
+							per = M{"n": "top", "o": true, "c": []any{per}}
+						}
+						return M{"id": "fx", "type": 0.0, "a": M{fld: []any{per}}}
+					}
+					if absent && (key == "n" || key == "o") {
+						continue
+					}
+					ops = append(ops, M{"op": "equalNode", "n": mk(false), "m": mk(true), "kind": "perturbed"})
+					ops = append(ops, M{"op": "flatPerson", "p": asList(mk(true)["a"].(M)[fld])[0]})
+				}
+			}
+		}
+	}
 	return ops
 }
 
